@@ -205,6 +205,19 @@ def goNameS (s : String) : String := String.ofList (goName s.toList)
 
 def oneOfNames (m : MsgD) : List String := m.oneofs.map goNameS
 
+/-- `BuildMessage`: the message's own oneofs, then those promoted from messages embedded by value (in field order) -/
+def withPromotedOneOfs (own : List String) (fields : List Field) : List String :=
+  fields.foldl (fun acc f =>
+    if f.info.oneOfName == "" || f.info.parentIsOptionalEmbed || acc.contains f.info.oneOfName then acc
+    else acc ++ [f.info.oneOfName]) own
+
+def insertStr (x : String) : List String → List String
+  | [] => [x]
+  | y :: ys => if x < y then x :: y :: ys else y :: insertStr x ys
+
+/-- `sort.Strings` -/
+def sortStrings (l : List String) : List String := l.foldr insertStr []
+
 def msgGoType (cfg : CfgView) (name : String) : String :=
   if cfg.defaultPackageName == "" then name else cfg.defaultPackageName ++ "." ++ name
 
@@ -291,7 +304,8 @@ def buildMessage (fuel : Nat) (cfg : CfgView) (req : Request) (desc : MsgD) (isR
       .ok { info := { name := desc.name, goType := msgGoType cfg desc.name, path := ctx.path,
                       namePath := namePathOf ctx.path desc.name, isRoot := isRoot,
                       injected := cfg.injected ctx.path,
-                      oneOfNames := oneOfNames desc, isEmpty := desc.fields.isEmpty,
+                      oneOfNames := (let ns := withPromotedOneOfs (oneOfNames desc) fields
+                                     if cfg.sort then sortStrings ns else ns), isEmpty := desc.fields.isEmpty,
                       comment := match desc.comment with | some c => String.ofList (messageComment c.toList) | none => "" },
             fields := fields }
 
